@@ -678,6 +678,14 @@ static void cmd_okeys(int nt, char **t)
 		while (!json_object_iter_equal(&a, &e)) { const char *k = json_object_iter_peek_name(&a); if (!first) ob_putc(&out, ','); first = 0; ob_hex(&out, k, strlen(k)); ob_printf(&out, ":%ld", uid_of(json_object_iter_peek_value(&a))); json_object_iter_next(&a); } }
 	ob_puts(&out, " lh=");
 	first = 1; { struct lh_entry *e; lh_foreach(json_object_get_object(o), e) { const char *k = (const char *)lh_entry_k(e); if (!first) ob_putc(&out, ','); first = 0; ob_hex(&out, k, strlen(k)); ob_printf(&out, ":%ld", uid_of((struct json_object *)lh_entry_v(e))); } }
+	ob_puts(&out, " ls=");   /* lh_foreach_safe + the accessor functions */
+	first = 1; { struct lh_entry *e, *tmp; lh_foreach_safe(json_object_get_object(o), e, tmp) { const char *k = (const char *)lh_entry_k(e); if (!first) ob_putc(&out, ','); first = 0; ob_hex(&out, k, strlen(k)); ob_printf(&out, ":%ld", uid_of((struct json_object *)lh_entry_v(e))); } }
+	ob_puts(&out, " bk=");   /* backwards from the tail through lh_entry_prev; printed in reverse, i.e. in forward order again */
+	{ struct lh_table *tb = json_object_get_object(o); struct lh_entry *e; int n = 0, i; struct lh_entry **st = (struct lh_entry **)malloc(sizeof *st * (size_t)(lh_table_length(tb) + 2));
+	  for (e = tb->tail; e && n <= lh_table_length(tb); e = lh_entry_prev(e)) st[n++] = e;
+	  for (i = n - 1; i >= 0; i--) { const char *k = (const char *)lh_entry_k(st[i]); if (i != n - 1) ob_putc(&out, ','); ob_hex(&out, k, strlen(k)); ob_printf(&out, ":%ld", uid_of((struct json_object *)lh_entry_v(st[i]))); }
+	  if (n && lh_entry_next(st[0]) != NULL) ob_puts(&out, ",ff:0");   /* the tail must have no successor */
+	  free(st); }
 	ob_puts(&out, " vi=");
 	{ struct vis_ctx c; c.o = &out; c.root = o; c.first = 1; json_c_visit(o, 0, vis_keys, &c); }
 	/* chain structure of the public table fields: head->next.. must be a simple chain of exactly count entries ending at tail; prev its mirror */
@@ -745,7 +753,7 @@ static void cmd_aadd(int nt, char **t) { int r; r = nt > 3 ? array_list_add(AL(t
 static void cmd_aput(int nt, char **t) { int r; r = nt > 4 ? array_list_put_idx(AL(t[1]), SZ(t[2]), H[hidx(t[3])]) : json_object_array_put_idx(H[hidx(t[1])], SZ(t[2]), H[hidx(t[3])]); ob_printf(&out, "= %d", r); emit_dlog(); }
 static void cmd_ains(int nt, char **t) { int r; r = nt > 4 ? array_list_insert_idx(AL(t[1]), SZ(t[2]), H[hidx(t[3])]) : json_object_array_insert_idx(H[hidx(t[1])], SZ(t[2]), H[hidx(t[3])]); ob_printf(&out, "= %d", r); emit_dlog(); }
 static void cmd_adel(int nt, char **t) { int r; r = nt > 4 ? array_list_del_idx(AL(t[1]), SZ(t[2]), SZ(t[3])) : json_object_array_del_idx(H[hidx(t[1])], SZ(t[2]), SZ(t[3])); ob_printf(&out, "= %d", r); emit_dlog(); }
-static void cmd_ashrink(int nt, char **t) { int r; (void)nt; r = json_object_array_shrink(H[hidx(t[1])], (int)L(t[2])); ob_printf(&out, "= %d", r); emit_dlog(); }
+static void cmd_ashrink(int nt, char **t) { int r; r = nt > 3 ? array_list_shrink(AL(t[1]), (size_t)L(t[2])) : json_object_array_shrink(H[hidx(t[1])], (int)L(t[2])); ob_printf(&out, "= %d", r); emit_dlog(); }
 static void cmd_aget(int nt, char **t) { int hd = hidx(t[3]); struct json_object *v = json_object_array_get_idx(H[hidx(t[1])], SZ(t[2])); (void)nt; H[hd] = v; Hset[hd] = 1; ob_printf(&out, "= %ld %d", uid_of(v), v == NULL); }
 /* ASUM <harr> -> = len=<n> cap=<size> nonnull=<count> uidsum=<sum of uids> first=<index of first non-null | -1> last=<index of last non-null | -1>   (whole-array digest for huge arrays) */
 static void cmd_asum(int nt, char **t)
@@ -760,6 +768,8 @@ static void cmd_adump(int nt, char **t)
 	struct json_object *a = H[hidx(t[1])]; size_t n = json_object_array_length(a), i; struct array_list *al = json_object_get_array(a); (void)nt;
 	ob_printf(&out, "= len=%zu cap=%zu e=", n, al->size);
 	for (i = 0; i < n + 3; i++) { struct json_object *v = json_object_array_get_idx(a, i); if (i) ob_putc(&out, ','); if (v) ob_printf(&out, "%ld", uid_of(v)); else ob_putc(&out, 'n'); }
+	/* the same questions asked of the lower-level handle: array_list_length / array_list_get_idx must agree with the json_object_array_* answers */
+	{ int alok = array_list_length(al) == n; for (i = 0; i < n + 3 && alok; i++) if (array_list_get_idx(al, i) != (void *)json_object_array_get_idx(a, i)) alok = 0; ob_printf(&out, " alok=%d", alok); }
 	ob_printf(&out, " far=%d", json_object_array_get_idx(a, (size_t)-1) == NULL && json_object_array_get_idx(a, n + 1000000) == NULL &&
 	          json_object_array_get_idx(a, ((size_t)1 << 32)) == NULL && json_object_array_get_idx(a, ((size_t)1 << 32) + (n ? n - 1 : 0)) == NULL &&
 	          json_object_array_get_idx(a, ((size_t)1 << 63) + (n ? n - 1 : 0)) == NULL);
@@ -779,7 +789,12 @@ static int cmp_val(const void *a, const void *b)
 	return u < v ? -1 : u > v ? 1 : cmp_uid(a, b);
 }
 /* ASORT <harr> [v]   json_object_array_sort by uid (or, with v, by current value) */
-static void cmd_asort(int nt, char **t) { json_object_array_sort(H[hidx(t[1])], nt > 2 ? cmp_val : cmp_uid); ob_puts(&out, "= ok"); emit_dlog(); }
+static void cmd_asort(int nt, char **t)
+{
+	if (nt > 2 && t[2][0] == 'L') array_list_sort(json_object_get_array(H[hidx(t[1])]), cmp_uid);   /* (L: through the lower-level handle) */
+	else json_object_array_sort(H[hidx(t[1])], nt > 2 ? cmp_val : cmp_uid);
+	ob_puts(&out, "= ok"); emit_dlog();
+}
 /* ASETV <harr> <idx> <val>: change the integer element at idx in place (json_object_set_int64 on the element itself; the array is not told) -> = <ret | -9 not an int> */
 static void cmd_asetv(int nt, char **t) { struct json_object *x = json_object_array_get_idx(H[hidx(t[1])], SZ(t[2])); (void)nt; ob_printf(&out, "= %d", x && json_object_is_type(x, json_type_int) ? json_object_set_int64(x, (int64_t)LL(t[3])) : -9); emit_dlog(); }
 /* ALADD <harr> <hval>: array_list_add on json_object_get_array(arr), i.e. the documented lower-level handle of the same array -> = <ret> */
